@@ -88,7 +88,7 @@ def _mesh_variants(et, d, tier):
     tp = Z.topo(et[0] if mixed else et)
     if d == 1:
         return [("T", 3, True, 0, "", "identity")]
-    v = [("T", 2, False, 0, "", "identity"), ("T", 2, False, 0, "", "generic")]
+    v = [("T", 2, False, 0, "", "identity"), ("T", 2, False, 0, "", "generic"), ("T", 2, False, 0, "", "reflection")]
     if d == 2:
         v.append(("T", 2, True, 0, "", "identity"))       # interior vertex displaced: general quadrangles
         v.append(("T", 1, True, 0, "", "identity"))       # one corner displaced: slanted edges
@@ -161,6 +161,10 @@ def cases(tier, seed):
                             c["every_direction"] = tier == "thorough"
                             c["sel_degree_cap"] = SEL_DEG_CAP[tier]
                             add(c)
+                            if sim == "elastic" and (vi == 0 or var[5] == "reflection") and not mixed:
+                                # the same loads entered AFTER read-only queries (displaced-configuration coordinates and normals, point
+                                # location) that warm the geometric caches in another order
+                                add(dict(c, prequery=True))
     # beams
     for bsim in ("beam_eb", "beam_timo"):
         for et in Z.TYPES_1D:
@@ -226,6 +230,12 @@ def _affine_map(name, d):
     A = Z.generic_affine(r, d)
     b = np.zeros(3)
     b[:d] = r.uniform(-0.5, 0.5, size=d)
+    if name == "reflection":
+        # generic affine map composed with a mirror: every element of the mesh is numbered clockwise (negative jacobians)
+        M = np.eye(3)
+        M[0, 0] = -1.0
+        A = A @ M
+        b[0] += 1.0
     return A, b
 
 
@@ -520,6 +530,31 @@ def _run_continuum(case):
     mesh, regs, d = _build_continuum(case)
     simu, unknowns, kw, pt_obs = _make_sim(sim, mesh, d, t)
     mesh = simu.mesh
+    if case.get("prequery"):
+        from EasyFEA.FEM._utils import MatrixType
+
+        X0 = np.asarray(mesh.coord, dtype=float)
+        U = rng("c09prequery", X0.shape[0]).normal(size=X0.shape) * 0.07
+        if d == 2:
+            U[:, 2] = 0.0
+        pts = []
+        for g in mesh.dict_groupElem.values():
+            if g.dim == 0:
+                continue
+            g.Get_GaussCoordinates_e_pg(MatrixType.mass, displacementMatrix=U)
+            if g.dim in (1, 2) and g.dim == d - 1:
+                g.Get_normals_e_pg(MatrixType.mass, displacementMatrix=U)
+            if g.dim == d:
+                pts.append(X0[np.asarray(g.connect, dtype=int)].mean(axis=1))
+        if d > 1:
+            mesh.Evaluate_dofsValues_at_coordinates(np.vstack(pts), X0[:, 0].copy())
+        moved = float(np.abs(np.asarray(mesh.coord, dtype=float) - X0).max())
+        if moved > 0.0:
+            et_ = case["elemType"]
+            return {"violations": [viol("geometry_after_query", f"read-only queries on a displaced configuration moved the nodes of the mesh by {moved:.3e}: every "
+                                        f"load entered afterwards is integrated on another geometry", sim=sim, elemType="+".join(et_) if isinstance(et_, list) else et_,
+                                        load=load, prequery=True)],
+                    "fingerprint": fp("moved", case), "nontrivial": True, "outcome": "violation", "transitions": 1}
     cx = Ctx()
     cx.simu, cx.unknowns, cx.kw, cx.pt_obs = simu, unknowns, kw, pt_obs
     cx.X = np.asarray(mesh.coord, dtype=float)
@@ -534,6 +569,8 @@ def _run_continuum(case):
     et = case["elemType"]
     cx.key = dict(sim=sim, elemType="+".join(et) if isinstance(et, list) else et, load=load, src=case["src"],
                   mesh=f"{case['src']}{case['poly']}k{case['k']}d{int(case['distort'])}g{case['diag']}{case['map'][0]}", thick=(t != 1.0))
+    if case.get("prequery"):
+        cx.key["prequery"] = True
     stride_one = bool(case.get("every_direction", False))
     vio = []
     nontrivial = False
